@@ -34,7 +34,25 @@ MANIFEST = dict(
           "extracted assembly (exact rationals) is run on the serialised fold models of every real fit and compared with the real "
           "final model (learner counts and structure exactly, coefficients within 1e-12 of the summed magnitudes), the proved "
           "clauses are evaluated on the real per-learner prediction vectors (1e-9 of the summed magnitudes), predict() is called "
-          "on a buffer holding other values, and the real gboost::result_t::done is run on mergeable fitted learners."),
+          "on a buffer holding other values, and the real gboost::result_t::done is run on mergeable fitted learners. "
+          "Extension 'stats': the code that COMPUTES and STORES the reported statistics is inside the model (C11_Stats_Defs): "
+          "ml::store_stats / load_stats (mean, deviation, count, percentiles 1 5 10 20 50 80 90 95 99, their columns and the members "
+          "that read them), tensor_t::variance (one pass, clamped) / stdev over exact rationals, nano::percentile by the C20 model "
+          "(imported), the flat buffers m_values(trial, fold, split, kind, 12) / m_optims of ml::result_t addressed by the C16 index "
+          "model (imported), add / store (both overloads) / stats / value / optimum_trial / closest_trial and the tasks of ml::tune "
+          "with evaluate = per-sample error / loss of the fitted model; 70 more translated kernels (selectors, percentages, index "
+          "expressions, loop bounds, the strict comparisons, the clamped variance expression). Proved for all inputs: store then load "
+          "returns the record, every (trial, fold, split, kind, statistic) has its own cell, re-storing changes no other, add() keeps "
+          "every record; the 12 numbers are a function of the multiset of the values; count = length, p1 <= p5 <= .. <= p99, mean and "
+          "every percentile between min and max, variance and deviation radicand >= 0 and = 0 iff all values are equal (the clamp "
+          "never fires over Q); value(trial) reads exactly the stored fold means, optimum_trial / closest_trial are the first strict "
+          "minimum; a batch of ml::tune executed in ANY task order stores, for every (trial, fold, split, kind), the statistics of "
+          "the per-sample errors / losses of the model fitted for that (trial, fold) on exactly that fold's samples and touches no "
+          "older trial. Tie: harness/c11_stats.cpp feeds random and adversarial value lists (ties, constants, one element, huge / "
+          "tiny magnitudes, nearly constant) and scrambled add / store / re-store scenarios to the real API; ocaml/c11_stats_driver.ml "
+          "compares counts, percentile positions, percentile values, every read-back cell, value() and optimum_trial() exactly, mean "
+          "and deviation against the exact rationals within the any-order summation bound; every stored record of every real fit "
+          "is checked against the order facts and re-computed by the extracted store_stats from the per-sample values."),
     note=("Coq kernel; translator (28 kernels); extraction with ExtrOCamlFloats/ExtrOCamlInt63 (binary64 = OCaml floats); "
           "harness + OCaml driver; the fitting pipeline (solvers) is an oracle: searched, not proved; statistics compared "
           "within 1e-9 relative (Eigen reductions, merged learners), monitor compared bit-exactly. Assemble stage: second "
@@ -42,7 +60,13 @@ MANIFEST = dict(
           "the C10 check) is part of its trusted base; the boosting loop of ::fit lives in an anonymous namespace, its model "
           "(bloop) is tied by reading and by the recomputation of the stored statistics, not by a differential run; diverged "
           "fits (contributions beyond 1e6) are excluded from the fold-average comparison of predictions, not from the exact "
-          "comparison of the assembled learners."),
+          "comparison of the assembled learners. Stats stage: third extraction (Zarith + Float64) + ocaml/c11_stats_driver.ml; it "
+          "imports the C20 percentile model / position theorems (C20_Defs, C20_Proofs, C20_Float) and the C16 index model read-only "
+          "(their kernels Src_pctile, Src_dims are part of its trusted tie; C11's own copies of the two position kernels are proved "
+          "equal to C20's); std::nth_element is modelled by its contract (the element at that index of the sorted sequence); Eigen's "
+          "mean / square sum are not bit-reproducible: compared with the exact rationals within the bound of C14_fl_sum_any_order / "
+          "C09_fp_tree_sum propagated through the variance, the division and the square root (bound coded in the driver, cited, "
+          "not imported: importing drags in C14's / C09's kernels); sqrt is outside Q: the model's deviation column holds the radicand."),
     technique="Coq proof over a translated+extracted model, exhaustive bit-exact differential correspondence, implementation-side recomputation",
     design="DESIGN.md section 2, C11")
 
@@ -79,7 +103,42 @@ def _build_asm_driver():
     return exe
 
 
+def _build_stats_driver():
+    """driver of the extension stage "STATS": third extraction of Extract_C11.v (extracted/c11_stats_model.ml: Z = Zarith,
+    floats = Float64 / Uint63 of coq-core.kernel), same scheme as tools/checks/c14.py"""
+    odir = os.path.join(vlib.WORK, "ocaml")
+    os.makedirs(odir, exist_ok=True)
+    exe = os.path.join(odir, "c11_stats_driver")
+    model = os.path.join(vlib.COQ, "extracted", "c11_stats_model.ml")
+    driver = os.path.join(vlib.ROOT, "ocaml", "c11_stats_driver.ml")
+    with vlib.Lock("ocaml-c11_stats_driver"):
+        srcs = [model, model + "i", driver]
+        for s in srcs:
+            if not os.path.exists(s):
+                raise vlib.CheckError("missing %s (extraction failed?)" % s)
+        if os.path.exists(exe) and all(os.path.getmtime(s) <= os.path.getmtime(exe) for s in srcs):
+            return exe
+        bd = os.path.join(odir, "c11_stats_driver.build")
+        vlib.sh("rm -rf %s && mkdir -p %s" % (shlex.quote(bd), shlex.quote(bd)))
+        for s in (model, model + "i"):
+            vlib.sh("cp %s %s/" % (shlex.quote(s), shlex.quote(bd)))
+        with open(os.path.join(bd, "driver_main.ml"), "w") as f:
+            f.write("open C11_stats_model\n# 1 \"c11_stats_driver.ml\"\n")
+            f.write(open(driver).read())
+        cmd = ("ocamlfind ocamlopt -O3 -w -a -rectypes -package zarith,coq-core.kernel -thread -linkpkg c11_stats_model.mli "
+               "c11_stats_model.ml driver_main.ml -o %s" % shlex.quote(exe))
+        rc, out = vlib.sh(cmd, cwd=bd, timeout=600)
+        if rc != 0:
+            raise vlib.CheckError("ocaml build of c11_stats_driver failed:\n%s" % out[-3000:])
+    return exe
+
+
 def setup():
+    vlib.build_harness("c11_stats", "rel", need_lib=True)
+    try:
+        _build_stats_driver()
+    except vlib.CheckError:
+        pass
     vlib.build_harness("c11_gboost", "rel", need_lib=True)
     vlib.build_ocaml("c11_driver", "c11_model.ml", "c11_driver.ml", floats=True)
     try:
@@ -217,9 +276,56 @@ def run(tier, replay=None):
                                                     "from the stored fold models", "case": l[:6000],
                                             "replay_cmd": "VERIF_SEED=%d %s %s fit | grep -a '^ASM' | %s" % (r.seed, exe, tier, adrv)},
                         no_input=not (asm_prop or impl_fail))
+    # 4c. extension stage "STATS": the code that computes and stores the statistics (ml::store_stats / load_stats, the layout and the
+    # queries of ml::result_t) against the extracted C11_Stats_Defs; plus the stored records of the real fits above (STATREC)
+    st_mism, st_prop, st_checked, st_done, st_fail, st_kv = [], [], 0, {}, [], {}
+    sexe = vlib.build_harness("c11_stats", "rel", need_lib=True)
+    soutf = os.path.join(wdir, "stats.out")
+    rc4, serr = vlib.sh("%s %s > %s" % (sexe, tier, soutf), timeout=3000, env={"VERIF_SEED": str(r.seed), "TMPDIR": os.path.join(wdir, "tmp")})
+    sdone = _grep(soutf, ("DONE ",))
+    st_fail = sorted(_grep(soutf, ("FAIL ",)), key=len)
+    if rc4 != 0 or not sdone:
+        r.violation("stats-crash", {"kind": "implementation crash / abnormal exit of the STATS harness", "exit": rc4, "stderr": serr[-2000:],
+                                    "last_operations": [t[:600] for t in _grep(soutf, ("STAT ", "RSTORE ", "RADD ", "RNEW "))[-5:]],
+                                    "replay_cmd": "VERIF_SEED=%d %s %s" % (r.seed, sexe, tier)}, fingerprint="crash")
+    else:
+        st_kv = dict(t.split("=") for t in sdone[0].split()[1:] if "=" in t)
+    for i, l in enumerate(st_fail[:3]):
+        r.violation("stats-impl-%d" % i, {"kind": "direct check of the stored statistics / of ml::result_t failed on the implementation (stage STATS)",
+                                          "case": l[:8000], "replay_cmd": "VERIF_SEED=%d %s %s | grep ^FAIL" % (r.seed, sexe, tier)})
+    sdrv = None
+    try:
+        sdrv = _build_stats_driver()
+    except (vlib.CheckError, OSError):
+        if cres["ok"]:
+            raise
+    if sdrv:
+        rc5, sout = vlib.sh("(cat %s; grep -a '^STATREC ' %s) | %s" % (shlex.quote(soutf), shlex.quote(outf), shlex.quote(sdrv)), timeout=3000)
+        for l in sout.split("\n"):
+            if l.startswith("MISMATCH"):
+                st_mism.append(l)
+            elif l.startswith("PROPFAIL"):
+                st_prop.append(l)
+            elif l.startswith("MODEL-DONE"):
+                st_done = dict(t.split("=") for t in l.split()[1:] if "=" in t)
+                st_checked = int(st_done.get("checked", 0))
+        if not st_checked and not crashed:
+            r.violation("stats-driver", {"kind": "model driver of the STATS stage failed", "out": sout[-2000:]}, no_input=True)
+        for i, l in enumerate(st_prop[:2]):
+            r.violation("stats-fit-%d" % i, {"kind": "a statistics record stored by a real fit is not the record the extracted store_stats computes from the per-sample "
+                                                     "values of the stored model on the fold's samples", "case": l[:8000]})
+        for i, l in enumerate(sorted(st_mism, key=len)[:3]):
+            r.violation("stats-corr-%d" % i, {"kind": "model/implementation disagreement in the STATS stage (ml::store_stats / ml::result_t vs the extracted "
+                                                      "C11_Stats_Defs: counts, percentile positions and values, value(), optimum_trial() exactly; mean / deviation "
+                                                      "within the any-order summation bound)", "case": l[:8000],
+                                              "replay_cmd": "VERIF_SEED=%d %s %s | %s" % (r.seed, sexe, tier, sdrv)},
+                        no_input=not (st_fail or impl_fail))
     vlib.handle_coq_failure(r, cres)
     vlib.proof_coverage(r, cres, "make -C coq theories/Properties_C11.vo && coqc theories/Properties_C11.v (Print Assumptions)",
-                        ["tools/translate.py (28 kernels of early_stopping.cpp, gboost/util.cpp, gboost/result.cpp, gboost/model.cpp, machine/result.cpp, machine/tune.cpp)",
+                        ["tools/translate.py (98 kernels of early_stopping.cpp, gboost/util.cpp, gboost/result.cpp, gboost/model.cpp, machine/result.cpp, machine/result.h, machine/tune.cpp, machine/stats.cpp, tensor/tensor.h, core/stats.h)",
+                         "stats stage: third extraction of Extract_C11.v (Z = Zarith, PrimFloat = OCaml floats), ocaml/c11_stats_driver.ml (exact rational bounds for mean / "
+                         "deviation derived from the any-order summation bound of C14_fl_sum_any_order / C09_fp_tree_sum), harness/c11_stats.cpp, the C20 percentile model and "
+                         "the C16 index model (imported read-only, tied by their own checks), std::nth_element = element of the sorted sequence (contract)",
                          "extraction: ExtrOcamlBasic + ExtrOCamlFloats + ExtrOCamlInt63 (binary64 and uint63 mapped to OCaml's native ones; Z/nat extracted as inductives)",
                          "PrimFloat = IEEE-754 binary64 as computed by g++ -O2 on x86-64 SSE2 (no -ffast-math) for +, -, /, <",
                          "ocaml/c11_driver.ml, harness/c11_gboost.cpp (independent oracles, tolerance 1e-9 relative for recomputed statistics)",
@@ -229,8 +335,10 @@ def run(tier, replay=None):
     cov = r.coverage
     dl = done[0] if done else ""
     kv = dict(t.split("=") for t in dl.split()[1:] if "=" in t)
-    cov["evaluations"] = sum(ops[k] for k in ("ES", "LOOP", "GBH")) + int(kv.get("fit_checks", 0)) + asm_checked
+    cov["evaluations"] = sum(ops[k] for k in ("ES", "LOOP", "GBH")) + int(kv.get("fit_checks", 0)) + asm_checked + st_checked
     cov["correspondence_lines_checked"] = checked
+    cov["stats_stage"] = dict(lines_checked=st_checked, mismatches=len(st_mism), fit_record_failures=len(st_prop),
+                              impl_direct_failures=len(st_fail), driver=st_done, harness=st_kv)
     cov["assemble_stage"] = dict(fits_checked=asm_checked, mismatches=len(asm_mism), proved_clause_failures=len(asm_prop), **asm_done)
     cov["distinct_nontrivial"] = len(distinct)
     cov["rule"] = ("distinct monitor call histories (an ES line together with the chain of calls before it), loop runs and stored fold histories; "
@@ -262,8 +370,16 @@ def run(tier, replay=None):
         "ml::result_t store/extra/stats read back what was stored for every (trial, fold) (slot arithmetic itself is proved)",
         "statistics of constant per-sample vectors (ml::result_t::store on n equal values, n = 2..12 x 40 values + seeded ones, and fits on "
         "constant targets): mean = the value, deviation 0 within tolerance and never NaN, count, percentiles"]
+    cov["unproved_clauses_searched"] += [
+        "binary64 mean / deviation of ml::store_stats are within the any-order rounding bound of the exact rational mean / radicand "
+        "(model over Q; the bound itself is C14's / C09's theorem, its propagation through variance, division and sqrt is coded in the driver)",
+        "the real ml::tune runs its tasks as the proved batch model does (observed through every stored record of every fit: the extracted "
+        "store_stats on the per-sample values recomputed from the stored fold model, 1e-9 relative)",
+        "closest_trial in binary64 (lpNorm<2>, sqrt) picks the trial the exact squared distances pick (small dyadic parameters)"]
     cov["excluded_inputs"] = ["NaN error values in monitor histories (payload/sign of NaN is not compared)",
-                              "size_t wrap-around of m_round + patience (patience <= 1000 by the parameter's range)"]
+                              "size_t wrap-around of m_round + patience (patience <= 1000 by the parameter's range)",
+                              "stats stage: empty value lists (store_stats on 0 values reads position -1: outside the domain), NaN / -0.0 values, "
+                              "deviation not compared when a value exceeds 1e150 (squares overflow)"]
     r.assumptions = ["binary64 arithmetic of the scalar code in early_stopping.cpp / gboost/util.cpp is IEEE-754 round-to-nearest (x86-64 SSE2, no fast-math)",
                      "k-fold / random splitters are deterministic in their seed (used to recover the folds' samples)",
                      "the fitting pipeline (solvers, weak-learner fitting) is an oracle; recomputed statistics are compared within 1e-9 relative",
